@@ -314,25 +314,50 @@ class ConnectionPool(Entity):
         poll_interval = min(0.1, self._connection_timeout / 10)
         elapsed = 0.0
 
-        while elapsed < self._connection_timeout:
-            yield poll_interval
-            elapsed += poll_interval
+        try:
+            while elapsed < self._connection_timeout:
+                yield poll_interval
+                elapsed += poll_interval
 
-            if received[0]:
-                connection = result[0]
-                if connection is not None:
-                    wait_time = (self.now - start_time).to_seconds()
-                    self._total_wait_time += wait_time
-                    logger.debug(
-                        "[%s] Acquired connection after wait: id=%d, wait=%.3fs",
-                        self.name,
-                        connection.id,
-                        wait_time,
-                    )
-                    return connection
-                else:
-                    # Connection was None (shouldn't happen normally)
-                    break
+                if received[0]:
+                    connection = result[0]
+                    if connection is not None:
+                        wait_time = (self.now - start_time).to_seconds()
+                        self._total_wait_time += wait_time
+                        logger.debug(
+                            "[%s] Acquired connection after wait: id=%d, wait=%.3fs",
+                            self.name,
+                            connection.id,
+                            wait_time,
+                        )
+                        return connection
+                    else:
+                        # Connection was None (shouldn't happen normally)
+                        break
+
+                # Capacity can come back without a release(): an abandoned set-up
+                # returns its reserved slot, warm-up parks a fresh connection in
+                # the idle list. The first waiter then helps itself, exactly as a
+                # new acquire() would.
+                if self._waiters and self._waiters[0][0] == waiter_id:
+                    connection = self._try_get_idle_connection()
+                    if connection is None and self._total_connections < self._max_connections:
+                        self._remove_waiter(waiter_id)
+                        connection = yield from self._create_connection()
+                    if connection is not None:
+                        self._remove_waiter(waiter_id)
+                        self._activate_connection(connection)
+                        self._total_wait_time += (self.now - start_time).to_seconds()
+                        return connection
+        except BaseException:
+            # The acquirer was abandoned while it waited (its process was dropped
+            # or closed): leave the queue, and pass on a connection that release()
+            # had already handed over, otherwise it would stay active for ever.
+            self._remove_waiter(waiter_id)
+            if received[0] and result[0] is not None:
+                received[0] = False
+                self.release(result[0])
+            raise
 
         # Timeout - remove ourselves from waiters
         self._remove_waiter(waiter_id)
